@@ -304,7 +304,55 @@ def lookup_behaviour(ctx: Ctx) -> None:
                         res.violation("C13/undeclared-id-ended-session", f"{framing}: frame with undeclared type number {ty} ended the session", case, trace=sim.trace(20))
 
 
+def sent_ids_behind_backlog(ctx: Ctx, framing: str, first: Any, drain: Any) -> None:
+    """What a public method puts on the wire carries the id api.proto gives that message ALSO when the frame waits in the transport's queue first
+    (device not reading) and other frames are produced meanwhile: the sequence the slow device finally decodes equals, id by id and payload by payload,
+    what a device that reads at once gets for the same calls."""
+    from vf.sim import apisweep
+
+    res = ctx.res
+    pr = protoparse.load_api()
+    a = apisweep.run_backlog(framing, False)
+    b = apisweep.run_backlog(framing, True, first, drain)
+    for o in (a, b):
+        if o.get("error") or o.get("harness_errors"):
+            res.inconclusive.append(f"backlog sweep: {o.get('error') or o['harness_errors'][0][-300:]}")
+            return
+    case = {"framing": framing, "backlog": True, "first": repr(first), "drain": repr(drain)}
+    for name, e in b["raised"]:
+        if (name, e) not in a["raised"]:
+            res.evaluations += 1
+            res.violation(f"C13/backlog/call-raised/{name.split('/')[0]}", f"{name}() raised {e} while the device was reading slowly; with a device that reads at once it does not", case)
+    ref = [(name, x) for name, lst in a["calls"] if (name, None) in b["calls"] for x in lst or []]
+    got = b["received"]
+    res.count(f"S/backlog/{framing}/frames_queued_behind_a_backlog", len(got))
+    res.count(f"S/backlog/{framing}/payload-less_frames_among_them", sum(1 for x in got if not x[2]))
+    if b["decode_errors"]:
+        res.evaluations += 1
+        res.violation("C13/device-could-not-decode", f"behind a backlog: {b['decode_errors'][:2]}", case)
+    for i, (name, x) in enumerate(ref):
+        res.evaluations += 1
+        res.sig("S-backlog", framing, x[0])
+        y = got[i] if i < len(got) else None
+        if y is None:
+            res.violation("C13/backlog/frame-missing", f"{name}(): {x[0]} (id {x[1]}) never reached the slow device; {len(got)} of {len(ref)} frames arrived", case)
+            break
+        pm = pr.messages.get(x[0])
+        if y[1] != x[1] or (pm is not None and pm.id != y[1]):
+            res.violation(f"C13/backlog/sent-under-wrong-id/{x[0]}", f"{name}() sends {x[0]} (id {x[1]} in api.proto); queued behind a backlog it reached the device as "
+                          f"id {y[1]} ({y[0]})", {**case, "method": name})
+        elif y[2] != x[2]:
+            res.violation(f"C13/backlog/payload-differs/{x[0]}", f"{name}(): payload of {x[0]} differs when the frame waited behind a backlog", {**case, "method": name})
+    if len(got) > len(ref):
+        res.evaluations += 1
+        res.violation("C13/backlog/extra-frames", f"slow device decoded {len(got)} frames, the same calls produce {len(ref)}: extra {[g[0] for g in got[len(ref):]][:4]}", case)
+
+
 def shard(ctx: Ctx) -> None:
+    for j, (framing, first, drain) in enumerate((("plain", ("partial", 1000), ("rate", 7)), ("plain", "block", None), ("noise", ("partial", 1500), ("rate", 40)),
+                                                 ("noise", "block", ("rate", 2000)), ("plain", ("partial", 2990), ("rate", 1)))):
+        if ctx.mine(700 + j):
+            sent_ids_behind_backlog(ctx, framing, first, drain)
     passive_direction(ctx)
     lookup_behaviour(ctx)
     if ctx.shard == 0:
